@@ -2,6 +2,7 @@ package main
 
 import (
 	"encoding/hex"
+	"fmt"
 	"go/types"
 	"strconv"
 )
@@ -158,6 +159,14 @@ func init() {
 	}
 	verifAPI["verifUnwind"] = func(e *Exec, args []Value, st string) Value {
 		e.unwind = argInt(args[0])
+		return nil
+	}
+	verifAPI["verifLoopCut"] = func(e *Exec, args []Value, st string) Value {
+		// paths on which some loop runs more than n iterations are cut (outside the claim, counted and reported)
+		e.cutBound = argInt(args[0])
+		if e.cutBound > 0 {
+			e.Assumes[fmt.Sprintf("paths on which a loop with an input-dependent exit condition runs more than %d iterations are cut: such inputs are outside the claim", e.cutBound)] = true
+		}
 		return nil
 	}
 	verifAPI["verifMapOrder"] = func(e *Exec, args []Value, st string) Value {
